@@ -25,6 +25,8 @@ echo "== demo WITH change"
 echo "exit=$C"
 echo "== build"
 go build -overlay /tmp/sandbox-hints/base-overlay.json ./... 2>&1 | grep -v "ld:\|^#" | tail -3
+# remove demo files first: the package's own tests are judged without the demonstration
+git status --short | grep '^??' | awk '{print $2}' | xargs -r rm -rf
 echo "== tests of touched packages"
 for d in $(git diff --name-only | xargs -n1 dirname | sort -u); do
   timeout 900 go test -count=1 -vet=off -ldflags=-checklinkname=0 -overlay /tmp/sandbox-hints/base-overlay.json ./$d/ 2>&1 | grep -v "ld:\|^#" | tail -2
